@@ -74,18 +74,18 @@ impl OutcomeTestGenerator for Outcome {
                             }
                             DiffLine::UnexpectedLines { lines } => {
                                 for (_, line) in lines {
-                                    let suffix = if line.ends_with(b"\n") {
+                                    let content = &line[..];
+                                    let content = content.trim_newlines();
+                                    let expectation = self.escaping.escaped_expectation(content);
+                                    let suffix = if self.escaping.has_unprintable(content) {
+                                        // rendered as escaped expectation, which disregards the newline
                                         ""
-                                    } else {
+                                    } else if !line.ends_with(b"\n") {
                                         " (no-eol)"
+                                    } else {
+                                        ""
                                     };
-                                    let line = formatln!(
-                                        "{}{}",
-                                        self.escaping
-                                            .escaped_expectation((&line[..]).trim_newlines()),
-                                        suffix
-                                    );
-                                    generated.push_str(&line)
+                                    generated.push_str(&formatln!("{}{}", expectation, suffix))
                                 }
                             }
                             _ => continue,
